@@ -475,7 +475,14 @@ class ParsersWorld:
                  "p_line": rs.choice([0.0005, 0.002, 0.01]) if gran == "L" else 0.0,
                  "focus": rs.choice(FOCUS) if gran == "L" else None,
                  "p_focus": rs.choice([0.03, 0.1, 0.3]) if gran == "L" else 0.0,
+                 "pct": 0,
                  "cancel_arm": rs.random() < 0.2, "max_len": 2500 if gran == "L" else 6000}
+        if gran == "L" and rs.random() < 0.5:
+            # PCT arm: few switches, one task suspended at a random line of the focus file while the others run on
+            swarm["pct"] = rs.choice([1, 1, 2])
+            if swarm["focus"] is None:
+                swarm["focus"] = rs.choice(FOCUS[1:])
+            swarm["pct_kmax"] = rs.choice([300, 1500, 6000])
         tasks = []
         for t in range(k):
             share = ro.random()
@@ -599,12 +606,16 @@ class ParsersWorld:
             chooser = _OrderChooser(trace["order"])
         elif "schedule" in trace:
             chooser = sched.ListChooser(trace["schedule"])
+        elif swarm.get("pct"):
+            chooser = sched.PctChooser(core.stream(trace["seed"], "schedule"), [t.get("tid", n) for n, t in enumerate(trace["tasks"])],
+                                       d=int(swarm["pct"]), kmax=int(swarm.get("pct_kmax", 4000)))
         else:
             chooser = sched.PrngChooser(core.stream(trace["seed"], "schedule"), p_line=swarm.get("p_line", 0.0),
                                         focus=swarm.get("focus"), p_focus=swarm.get("p_focus", 0.0))
         S = sched.Scheduler(chooser, labels=self.LABELS[gran],
                             trace_prefixes=self.trace_prefixes if gran == "L" else None,
-                            trace_exclude=("parsetab.py",))
+                            trace_exclude=("parsetab.py",),
+                            trace_contains=swarm.get("focus") if (gran == "L" and swarm.get("pct")) else None)
         st = {"violations": [], "stats": {"tasks": len(trace["tasks"]), "runs": 0, "refs": 0, "cancel_fired": 0,
                                            "exc_outcomes": 0, "ctor_during_other_run": 0, "then_objects_runs": 0},
               "kinds": []}
@@ -724,6 +735,7 @@ class ParsersWorld:
                             "followup_tasks": sum(1 for t in trace["tasks"] if (t.get("src") or "").startswith("gen:followup"))})
         if gran == "L":
             st["stats"]["focus_" + str(swarm.get("focus"))] = 1
+            st["stats"]["pct_runs"] = 1 if swarm.get("pct") else 0
         ytrace = hashlib.sha1(repr(S.yield_trace).encode()).hexdigest()[:16] if gran != "L" else \
             hashlib.sha1(repr([(a, b) for a, b, c in chooser.recorded][:40] + [len(chooser.recorded)]).encode()).hexdigest()[:16]
         st["kinds"] = [gran, ytrace]
